@@ -11,9 +11,19 @@
    contributed twice to a type); on success the model holds the declared types in file order, each with
    exactly the contributed relation names, and the declared conditions attributed to their files
    (Proofs/MergeIff.v).  The decidable form is evaluated by the extracted model on every generated module set
-   and compared with the implementation's verdict. *)
+   and compared with the implementation's verdict.  THE CONTENT (12-13, Proofs/MergeContent.v): in the merged model
+   every relation declared by a type definition reads back with its rewrite and metadata unchanged, every
+   relation declared by an extension reads back with its rewrite unchanged and the extending file as its file
+   (the module is the one the listener recorded in the extension), every type reads back with the module of its
+   definition and the file that defined it, and every relation that reads back was declared by some file with
+   exactly that rewrite.  MODULES (14-16, Proofs/MergeModules.v): which declarations of a parsed module file are
+   definitions and which extensions (the listener's extension table, by position), the module names the listener
+   records (a definition carries the module of the file's header, its relations none of their own, an extension's
+   relations carry the module of the extending file's header, conditions likewise), and hence on the merged model
+   GetModuleForObjectTypeRelation ([module_for_relation]) answers, for every relation, the module named in the
+   header of the file that declared it. *)
 From Coq Require Import Permutation.
-From Verif Require Import Base.Str Base.Outcome Model.Ast Model.Merge Spec.MergeSpec Proofs.MergeProofs Proofs.MergeIff Proofs.MergeCheck Proofs.MergeWf.
+From Verif Require Import Base.Str Base.Outcome Model.Ast Model.Merge Spec.MergeSpec Spec.MergeObs Proofs.MergeProofs Proofs.MergeIff Proofs.MergeCheck Proofs.MergeContent Proofs.MergeWf Proofs.MergeModules.
 
 Theorem C07_empty_set : forall v, merge [] v = Ok {| m_schema := v; m_types := []; m_conds := [] |}.
 Proof. reflexivity. Qed.
@@ -83,3 +93,80 @@ Proof. exact wf_modules_of_parsed. Qed.
 Theorem C07_succeeds_iff_conflict_free_for_all_files : forall fs v,
   NoDup (map mf_name fs) -> ((exists m, merge fs v = Ok m) <-> conflict_free fs).
 Proof. exact merge_ok_iff_unconditional. Qed.
+
+(* 12. the content of a successful merge, read through Spec/MergeObs.v *)
+Theorem C07_content_of_the_merged_model : forall fs v m,
+  wf_modules fs -> merge fs v = Ok m ->
+  (forall f td r u, In f fs -> In td (file_defs f) -> assoc r (td_rels td) = Some u ->
+     rel_body (m_types m) (td_name td) r = Some u /\ rel_attr (m_types m) (td_name td) r = assoc r (td_meta_rels td)) /\
+  (forall f td r u, In f fs -> In td (file_exts f) -> assoc r (td_rels td) = Some u ->
+     rel_body (m_types m) (td_name td) r = Some u /\
+     rel_attr (m_types m) (td_name td) r = option_map (with_rel_file (mf_name f)) (assoc r (td_meta_rels td))) /\
+  (forall f td, In f fs -> In td (file_defs f) -> type_attr (m_types m) (td_name td) = Some (td_module td, mf_name f)) /\
+  (forall T r u, rel_body (m_types m) T r = Some u ->
+     exists f td, In f fs /\ In td (file_defs f ++ file_exts f) /\ td_name td = T /\ assoc r (td_rels td) = Some u).
+Proof. exact merge_content. Qed.
+
+(* 13. the same for every list of files with distinct names *)
+Theorem C07_content_of_the_merged_model_for_all_files : forall fs v m,
+  NoDup (map mf_name fs) -> merge fs v = Ok m ->
+  (forall f td r u, In f fs -> In td (file_defs f) -> assoc r (td_rels td) = Some u ->
+     rel_body (m_types m) (td_name td) r = Some u /\ rel_attr (m_types m) (td_name td) r = assoc r (td_meta_rels td)) /\
+  (forall f td r u, In f fs -> In td (file_exts f) -> assoc r (td_rels td) = Some u ->
+     rel_body (m_types m) (td_name td) r = Some u /\
+     rel_attr (m_types m) (td_name td) r = option_map (with_rel_file (mf_name f)) (assoc r (td_meta_rels td))) /\
+  (forall f td, In f fs -> In td (file_defs f) -> type_attr (m_types m) (td_name td) = Some (td_module td, mf_name f)) /\
+  (forall T r u, rel_body (m_types m) T r = Some u ->
+     exists f td, In f fs /\ In td (file_defs f ++ file_exts f) /\ td_name td = T /\ assoc r (td_rels td) = Some u).
+Proof. exact merge_content_unconditional. Qed.
+
+(* non-vacuity: a definition in one file, an extension with a rewrite in another; the merge succeeds and the
+   readings are the declared ones *)
+Definition ex_nl : str := [10%N].
+Definition ex_core : mfile := {| mf_name := lit "core.fga"; mf_text :=
+  lit "module core" ++ ex_nl ++ lit "type user" ++ ex_nl ++ lit "type doc" ++ ex_nl ++ lit "  relations" ++ ex_nl ++
+  lit "    define viewer: [user]" ++ ex_nl |}.
+Definition ex_ext : mfile := {| mf_name := lit "ext.fga"; mf_text :=
+  lit "module ext" ++ ex_nl ++ lit "extend type doc" ++ ex_nl ++ lit "  relations" ++ ex_nl ++
+  lit "    define editor: [user] or viewer" ++ ex_nl |}.
+Example C07_content_example :
+  exists m, merge [ex_core; ex_ext] (lit "1.2") = Ok m /\
+    map td_name (m_types m) = [lit "user"; lit "doc"] /\
+    rel_body (m_types m) (lit "doc") (lit "editor") = Some (UUnion [UThis ThisEmpty; UComputed (lit "viewer")]) /\
+    option_map (fun r => (rm_module r, rm_file r)) (rel_attr (m_types m) (lit "doc") (lit "editor")) = Some (lit "ext", Some (lit "ext.fga")) /\
+    type_attr (m_types m) (lit "doc") = Some (lit "core", lit "core.fga").
+Proof. eexists. split; [vm_compute; reflexivity|]. vm_compute. repeat split; reflexivity. Qed.
+
+(* 14. a parsed module file, declaration by declaration *)
+Theorem C07_parsed_module_file : forall f m exts,
+  module_of f = Some (m, exts) ->
+  exists ft, file_module f <> [] /\
+    file_defs f = map (Spec.Sem.sem_type true (file_module f)) (filter (fun t => negb (Model.Parser.ty_extend t)) (Model.Parser.f_types ft)) /\
+    file_exts f = map (Spec.Sem.sem_type true (file_module f)) (filter Model.Parser.ty_extend (Model.Parser.f_types ft)) /\
+    m_conds m = map (Spec.Sem.sem_cond true (file_module f)) (Model.Parser.f_conds ft).
+Proof. exact parsed_module_shape. Qed.
+
+(* 15. the module names the listener records *)
+Theorem C07_listener_module_names : forall f m exts,
+  module_of f = Some (m, exts) ->
+  file_module f <> [] /\
+  Forall (fun td => td_module td = file_module f /\ forall r rm, assoc r (td_meta_rels td) = Some rm -> rm_module rm = []) (file_defs f) /\
+  Forall (fun td => forall r rm, assoc r (td_meta_rels td) = Some rm -> rm_module rm = file_module f) (file_exts f) /\
+  Forall (fun p : str * condition => option_map cm_module (c_meta (snd p)) = Some (file_module f)) (file_conds f).
+Proof. exact parsed_module_attribution. Qed.
+
+(* 16. attribution on the merged model, for every list of files with distinct names *)
+Theorem C07_module_attribution : forall fs v m,
+  NoDup (map mf_name fs) -> merge fs v = Ok m ->
+  (forall f td r u, In f fs -> In td (file_defs f ++ file_exts f) -> assoc r (td_rels td) = Some u ->
+     exists t, tfind (m_types m) (td_name td) = Some t /\ module_for_relation t r = Some (file_module f)) /\
+  (forall f td, In f fs -> In td (file_defs f) -> type_attr (m_types m) (td_name td) = Some (file_module f, mf_name f)) /\
+  (forall f td r u, In f fs -> In td (file_exts f) -> assoc r (td_rels td) = Some u ->
+     option_map rm_file (rel_attr (m_types m) (td_name td) r) = Some (Some (mf_name f))).
+Proof. exact merge_module_attribution. Qed.
+
+Example C07_module_attribution_example :
+  file_module ex_ext = lit "ext" /\ file_module ex_core = lit "core" /\
+  exists m t, merge [ex_core; ex_ext] (lit "1.2") = Ok m /\ tfind (m_types m) (lit "doc") = Some t /\
+              module_for_relation t (lit "editor") = Some (lit "ext") /\ module_for_relation t (lit "viewer") = Some (lit "core").
+Proof. split; [vm_compute; reflexivity|]. split; [vm_compute; reflexivity|]. eexists. eexists. split; [vm_compute; reflexivity|]. vm_compute. repeat split; reflexivity. Qed.
